@@ -20,8 +20,8 @@ package netpoll
 //@ ghost map pool int
 //   pool[a]  of the byte array with id a: 0 not a pool block (caller memory, dirtmake), 1 taken from mcache and
 //            not yet returned, 2 returned to mcache
-//@ ghost map blknode int
-//@ ghost map cacheown int
+//@ ghost map blknode *linkBufferNode
+//@ ghost map cacheown *UnsafeLinkBuffer
 //@ ghost map cacheidx int
 //   blknode[a]  the one managed node whose buf is block a (the node that will return it), 0 if none
 //   cacheown[a], cacheidx[a]  the buffer whose caches slice holds block a, and at which index (0: none)
@@ -391,3 +391,47 @@ package netpoll
 //@   loop 3 invariant others(b) && b.head == b.read && b.length == old(b.length) && rpos(b) == old(rpos(b)) && fpos(b) == old(fpos(b)) && mpos(b) == old(mpos(b))
 //@   loop 3 invariant len(b.caches) >= 0 && (b.caches != nil ==> allocated(b.caches)) && (b.cachePeek != nil ==> cacheown[b.cachePeek#arr] == nil)
 //@   loop 3 invariant forall i int {b.caches[i]#arr}{b.caches[i]#base}{b.caches[i]#cap} :: rangeindex < i && i < len(b.caches) ==> cacheok(b, i)
+
+//@ func (*UnsafeLinkBuffer).Len
+//@   property C01
+//@   ensures result == b.length
+//@
+//@ func (*UnsafeLinkBuffer).IsEmpty
+//@   property C01
+//@   ensures ok == (b.length == 0)
+
+//@ func NewLinkBuffer
+//@   property C01
+//@   ensures fresh(result) && wf(result) && result.length == 0 && result.mallocSize == 0 && result.head == result.read && samepool()
+//@   ensures len(result.caches) == 0 && result.cachePeek == nil && nopend(result)
+//@   modifies pool, blknode, cacheown, linkBufferNode.own, linkBufferNode.ord, linkBufferNode.sp
+//@   ghost after call newLinkBufferNode#1: result.own = buf; result.ord = 0; result.sp = 0
+
+// ---- the vectors taken for sending ----
+// vnode[k] / vpos[k]: the node and the stream position behind entry k of the vector just built (ghost scratch)
+//@ ghost map vnode *linkBufferNode
+//@ ghost map vpos int
+//@ pred vsentry(b *UnsafeLinkBuffer, vs [][]byte, k int) = inb(b, vnode[k]) && vnode[k].ord >= b.read.ord && vnode[k].ord <= b.flush.ord
+//@     && vs[k]#arr == vnode[k].buf#arr && vs[k]#base == vnode[k].buf#base + vnode[k].off && len(vs[k]) == len(vnode[k].buf) - vnode[k].off
+//@     && vpos[k] == vnode[k].sp + vnode[k].off && vnode[k].mode & 2 != 0
+
+//@ func (*UnsafeLinkBuffer).GetBytes
+//@   property C02 C04 C08
+//@   requires wf(b)
+//@   ensures len(vs) >= 0 && (old(len(p)) > 0 ==> len(vs) <= old(len(p)) && vs#arr == p#arr && vs#base == p#base)
+//@   ensures forall k int {vnode[k]}{vs[k]#len}{vs[k]#arr} :: 0 <= k && k < len(vs) ==> vsentry(b, vs, k)
+//@   ensures len(vs) > 0 ==> vpos[0] == rpos(b)
+//@   ensures forall k int {vpos[k]} :: 0 <= k && k + 1 < len(vs) ==> vpos[k + 1] == vpos[k] + len(vs[k]) && len(vs[k]) > 0
+//@   ensures forall m *linkBufferNode :: m.mode == old(m.mode) || (inb(b, m) && m.mode == old(m.mode) | 2)
+//@   modifies linkBufferNode.mode, mem:[]byte, vnode, vpos
+//@   ghost after store elem#1: vnode[i] = node; vpos[i] = node.sp + node.off
+//@   ghost after store elem#2: vnode[i] = flush; vpos[i] = flush.sp + flush.off
+//@   loop 1 invariant inb(b, node) && node.ord >= b.read.ord && node.ord <= b.flush.ord && n >= 0
+//@   loop 2 invariant 0 <= i && i <= len(p) && p#arr != 0 && (old(len(p)) > 0 ==> sameslice(p, old(p)))
+//@   loop 2 invariant inb(b, node) && node.ord >= b.read.ord && node.ord <= b.flush.ord
+//@   loop 2 invariant i == 0 ==> node.sp + node.off == rpos(b)
+//@   loop 2 invariant i > 0 ==> node.sp + node.off == vpos[i - 1] + len(p[i - 1])
+//@   loop 2 invariant forall k int {vnode[k]}{p[k]#len}{p[k]#arr} :: 0 <= k && k < i ==> vsentry(b, p, k) && len(p[k]) > 0 && vnode[k].ord < node.ord
+//@   loop 2 invariant i > 0 ==> vpos[0] == rpos(b)
+//@   loop 2 invariant forall k int {vpos[k]} :: 0 <= k && k + 1 < i ==> vpos[k + 1] == vpos[k] + len(p[k])
+//@   loop 2 invariant forall m *linkBufferNode :: m.mode == old(m.mode) || (inb(b, m) && m.mode == old(m.mode) | 2)
